@@ -29,7 +29,11 @@ TRANSFORMS = ["permute", "fortran", "strided", "width", "roll", "roll1", "revers
 @st.composite
 def layout_case(draw, names=None):
     fg = draw(gen.freq_grid(3, 10))
-    dg = draw(gen.dir_grid(3, 16, orders=("asc",), spacing=("whole", "dyadic")))
+    dg = draw(gen.dir_grid(3, 16, orders=("asc",), spacing=("whole", "dyadic", "arbitrary")))
+    # a partial sector (uniform, not covering the circle): smoothing and splits treat it as non-circular
+    if draw(st.integers(0, 3)) == 0 and dg["n"] >= 5:
+        k = draw(st.integers(1, dg["n"] - 3))
+        dg = dict(dg, n=dg["n"] - k, d=dg["d"][: dg["n"] - k], partial=True)
     dims = draw(gen.extra_dims(maxdims=2, maxsize=3))
     npos = int(np.prod([n for _, n in dims])) if dims else 1
     specs = [draw(gen.spectrum(kinds=("multinoisy",))) for _ in range(min(npos, 3))]
@@ -94,7 +98,7 @@ def check_layout(case, ctx):
     op = case["op"]
     name = op["op"]
     fam = ops.CATALOGUE[name][2]
-    ctx.label("T=" + T, "op=" + name, "family=" + fam)
+    ctx.label("T=" + T, "op=" + name, "family=" + fam, "dirs=%s/%s" % (case["dg"]["spacing"], "partial" if case["dg"].get("partial") else "full"))
     if tuple(y.dims) != tuple(x.dims):
         ctx.label("dims-reordered")
         if list(y.dims).index("dir") < list(y.dims).index("freq"):
